@@ -50,6 +50,8 @@ INC = "// first comment\ngamma  4;\n// comment in include\nnested { fromInc 5; }
 INC2 = "gamma  40;\nshared  2;\nonlyTwo  22;\n"
 F2 = '{"#include": "sub/inc", "j1": 1, "j2": "$gamma", "j3": {"b": "text", "a": [1, 2.5]}}'
 F3 = "fk 1;\n// foam comment\nfsub { v (1 2 3); }\n"
+# a block comment (own lines) whose text contains the line-comment marker, a quoted value, a trailing line comment
+F4 = "k4  1;\n/* see a // b\n   end */\nm4  'two words'; // c4\n"
 WDICT = {"w1": 1, "w2": "two words", "w3": {"b": [1, 2], "a": None}, 5: "int key"}
 
 
@@ -61,6 +63,7 @@ def setup_tree(root: Path):
     (root / "sub" / "inc2").write_text(INC2)
     (root / "f2.json").write_text(F2)
     (root / "f3.foam").write_text(F3)
+    (root / "f4").write_text(F4)
 
 
 def canon(d):
@@ -97,6 +100,11 @@ def do_op(root: Path, op: str, spelling: str, out_tag: str):
     if op == "parse":
         dictIO.DictParser.parse(P("f1"))
         return ("bytes", (root / "parsed.f1").read_bytes())
+    if op == "read4":
+        return ("data", canon(dictIO.DictReader.read(P("f4"))))
+    if op == "parse4":
+        dictIO.DictParser.parse(P("f4"))
+        return ("bytes", (root / "parsed.f4").read_bytes())
     if op == "parseo":
         dictIO.DictParser.parse(P("f1"), order=True, output="cpp")
         return ("bytes", (root / "parsed.f1").read_bytes())
@@ -134,7 +142,7 @@ def do_op(root: Path, op: str, spelling: str, out_tag: str):
 
 
 PREFIX_OPS = ["read1", "read2", "read3", "write", "parse", "dumpload", "reset", "read1o"]
-OBSERVED = ["read1", "read1o", "read1n", "read2", "read3", "write", "writeo", "parse", "parseo", "parsej", "dumpload", "writeback", "loaddump"]
+OBSERVED = ["read1", "read1o", "read1n", "read2", "read3", "read4", "write", "writeo", "parse", "parseo", "parsej", "parse4", "dumpload", "writeback", "loaddump"]
 CWDS = [".", "sub", "sub/deep", "other"]
 # every offset of the wrap inside one read of f1 (about 14 placeholders): each placeholder gets id 0 under one of them
 COUNTERS = [-1, 5] + list(range(999984, 1000000))
@@ -187,6 +195,9 @@ def oracle(case: dict):
         ren = lambda b: native.canon_ids(re.sub(r"#include(\d{6})", r"INCLUDE\1", b.decode()))  # noqa: E731
         if ren(got[1]) == ren(ref[1]):
             return ("json-bytes-carry-placeholder-ids", f"JSON output differs from the reference run only in placeholder ids: {got[1][:160]!r}")
+    if got != ref and got[0] == "bytes" and case["observed"] == "parse4":
+        if native.canon_ids(got[1].decode()) == native.canon_ids(ref[1].decode()) and b"LINECOMMENT" in got[1]:
+            return ("written-text-carries-placeholder-id", f"the written text differs from the reference run only in a placeholder id it spells out: {got[1][:200]!r}")
     if got != ref:
         what = "bytes" if "bytes" in got[0] and got[0] == "bytes" else got[0]
         return ("differs", f"{case['observed']} ({what}) differs from the reference run: got {str(got[1])[:400]!r} vs {str(ref[1])[:400]!r}")
@@ -215,6 +226,7 @@ def order_wrap(case, f):
 
 
 KNOWN_PREDICATES = {"C08-order-across-counter-wrap": order_wrap,
+                    "C08-line-comment-inside-block-comment": lambda case, f: case["observed"] == "parse4" and f["symptom"] == "written-text-carries-placeholder-id",
                     "C08-json-output-carries-placeholder-ids": lambda case, f: f["symptom"] == "json-bytes-carry-placeholder-ids"}
 
 
